@@ -542,6 +542,11 @@ func (r *Run) applyAuth(cs *ClientSpec, variant string, form url.Values) *Basic 
 		}
 		form.Set("client_id", cs.ID)
 		return &Basic{User: cs.ID, Pass: "no-other-confidential-client"}
+	case "pub_basic":
+		// a public client naming itself in the Authorization header (empty password); whatever client_id the body carries stays
+		if cs.Public {
+			return &Basic{User: cs.ID, Pass: ""}
+		}
 	case "none":
 		return nil
 	case "unknown_client":
